@@ -147,7 +147,6 @@ func (s *c03Scene) check() {
 
 	// transaction lookups: resolve iff contained in a canonical block, and point at it
 	for t, tx := range s.txs {
-		vs.Known("C03-sethead-stale-lookups", s.rewound != nil && s.rewound[t])
 		h, num, idx := GetTxLookupEntry(db, tx.Hash())
 		gtx, gh, gnum, gidx := GetTransaction(db, tx.Hash())
 		rc, _, _, _ := GetReceipt(db, tx.Hash())
@@ -161,17 +160,14 @@ func (s *c03Scene) check() {
 			vs.Assert(gtx != nil && gtx.Hash() == tx.Hash() && gh == w.blk && gnum == w.num && gidx == w.idx, "GetTransaction resolves to the canonical block and position")
 			vs.Assert(rc != nil, "GetReceipt resolves a canonical transaction")
 		}
-		vs.Known("", true)
 	}
 
 	// heights above the head map to nothing
-	vs.Known("C03-reorg-shorter-stale-numbers", s.shorter)
 	for n := head.NumberU64() + 1; n <= s.top+1; n++ {
 		vs.Assert(GetCanonicalHash(db, n) == (common.Hash{}), "no canonical entry above the head")
 		vs.Assert(bc.GetBlockByNumber(n) == nil, "GetBlockByNumber above the head is nil")
 		vs.Assert(bc.GetHeaderByNumber(n) == nil, "GetHeaderByNumber above the head is nil")
 	}
-	vs.Known("", true)
 }
 
 func c03Shape() (a, b, heavyAt int) {
